@@ -176,7 +176,9 @@ func c20Adapters(e *c20Env) {
 		if m := chk("CurryParam5", r5, rec{"A", true, 2.5, int8(4), uint(5), args}); m != "" {
 			return m
 		}
-		r6 := fpgo.CurryParam6(func(a string, b bool, c3 float64, d int8, f uint, g rune, xs ...int) rec { return rec{a, b, c3, d, f, g, xs} }, "A", true, 2.5, int8(4), uint(5), 'z')(args[:3]...)
+		r6 := fpgo.CurryParam6(func(a string, b bool, c3 float64, d int8, f uint, g rune, xs ...int) rec {
+			return rec{a, b, c3, d, f, g, xs}
+		}, "A", true, 2.5, int8(4), uint(5), 'z')(args[:3]...)
 		if m := chk("CurryParam6", r6, rec{"A", true, 2.5, int8(4), uint(5), 'z', args[:3]}); m != "" {
 			return m
 		}
@@ -461,7 +463,9 @@ func c20Patterns(e *c20Env) {
 	i7 := 7
 	var nilInt *int
 	var nilS *c20S
-	mkComp := func(ct fpgo.CompType, vals ...any) (*fpgo.CompData, []any) { return fpgo.NewCompData(ct, vals...), vals }
+	mkComp := func(ct fpgo.CompType, vals ...any) (*fpgo.CompData, []any) {
+		return fpgo.NewCompData(ct, vals...), vals
+	}
 	var probes []c20Probe
 	add := func(desc string, v any) { probes = append(probes, c20Probe{desc: desc, v: v}) }
 	add("0", 0)
@@ -729,6 +733,58 @@ func c20CurryScenario(id string, goroutines, callsEach int, markDone bool, seed 
 	}}
 }
 
+// the usual currying idiom: the function itself calls MarkDone once it has enough arguments, while other Calls are
+// already queued on the CurryDef's mutex. MarkDone then happens inside the serialised section, so there is a clear
+// cut: no invocation may follow the one that marked the CurryDef done, and Result stays that invocation's value.
+func c20CurryMarkDoneInside(id string, goroutines, doneAt int, seed int64) core.Scenario {
+	return core.Scenario{ID: id, Class: "CurryDef.concurrent", Run: func(c *core.Ctx) {
+		var invocations, afterDone int
+		var doneValue int
+		marked := false
+		var cur *fpgo.CurryDef[int, int]
+		cur = fpgo.CurryNewGenerics(func(cd *fpgo.CurryDef[int, int], args ...int) int {
+			invocations++
+			if marked {
+				afterDone++
+			}
+			if invocations == doneAt {
+				// let the other callers reach the mutex before the CurryDef is marked done
+				for i := 0; i < 20+int(seed%20); i++ {
+					runtime.Gosched()
+				}
+				cd.MarkDone()
+				marked = true
+				doneValue = 1000 + len(args)
+				return doneValue
+			}
+			return len(args)
+		})
+		var wg sync.WaitGroup
+		start := make(chan struct{})
+		for g := 0; g < goroutines; g++ {
+			wg.Add(1)
+			go func(g int) {
+				defer wg.Done()
+				<-start
+				for k := 0; k < 4; k++ {
+					cur.Call(g*100 + k)
+				}
+			}(g)
+		}
+		close(start)
+		wg.Wait()
+		c.Eval(int64(goroutines * 4))
+		c.Distinct(id)
+		rep := map[string]any{"scenario": id, "goroutines": goroutines, "mark_done_at_invocation": doneAt}
+		if afterDone > 0 || invocations != doneAt {
+			c.Violationf("CurryDef:invoked-after-MarkDone", rep, "the function called MarkDone() in its invocation #%d, but it was invoked %d times in total (%d after MarkDone)", doneAt, invocations, afterDone)
+		}
+		if cur.Result() != doneValue {
+			c.Violationf("CurryDef:result-not-frozen", rep, "Result()=%d, the invocation that marked the CurryDef done returned %d", cur.Result(), doneValue)
+		}
+	}}
+}
+
 func init() {
 	core.Register(&core.Check{
 		ID: "C20",
@@ -763,6 +819,9 @@ func init() {
 				calls := 1 + (i/7)%12
 				md := i%3 == 2
 				out = append(out, c20CurryScenario(fmt.Sprintf("curry-g%d-c%d-md%v-%d-race%v", g, calls, md, i, race), g, calls, md, c.Seed+int64(i)))
+				if i%2 == 0 {
+					out = append(out, c20CurryMarkDoneInside(fmt.Sprintf("curry-markdone-inside-g%d-%d-race%v", g, i, race), g, 1+i%5, c.Seed+int64(i)))
+				}
 			}
 			return out
 		},
